@@ -206,9 +206,33 @@ func (c *AttackCtx) Apply(root *etree.Element, op Op) *etree.Element {
 		}
 	case "add-attr":
 		e := pick(els, op.A)
-		names := []string{"ID", "Destination", "InResponseTo", "Version", "IssueInstant", "NotOnOrAfter", "Recipient", "SignatureValidated", "SignatureValidated", "x:SignatureValidated", "ResponseSignatureValidated"}
+		names := []string{"ID", "Destination", "InResponseTo", "Version", "IssueInstant", "NotOnOrAfter", "Recipient", "SignatureValidated", "SignatureValidated", "x:SignatureValidated", "ResponseSignatureValidated",
+			"xmlns:IssueInstant", "xmlns:Version", "xmlns:InResponseTo", "xmlns:Destination", "xmlns:NotOnOrAfter", "xmlns:Recipient", "xmlns:ID", "xmlns:Method", "xmlns:Value", "xmlns:SessionIndex", "xmlns:NotBefore"}
 		n := names[op.B%len(names)]
 		v := op.S
+		if strings.HasPrefix(n, "xmlns:") {
+			// a namespace DECLARATION whose prefix is the name of an attribute the decoders read: unused, so exclusive
+			// canonicalisation neither signs nor keeps it — and a decoder that matches attributes by local name takes
+			// it for the attribute. On the root, on an assertion, in front of or behind the real attributes.
+			switch op.C % 3 {
+			case 1:
+				if as := byTag(root, "Assertion"); len(as) > 0 {
+					e = as[op.A%len(as)]
+				}
+			case 2:
+				e = root
+			}
+			v = []string{"urn:evil", "1.1", "2001-01-01T00:00:00Z", "https://evil.example/acs", "2.0", "2199-01-01T00:00:00Z"}[(op.A/2)%6]
+			if e.SelectAttr(n) == nil {
+				if op.A%2 == 0 {
+					e.Attr = append([]etree.Attr{{Space: "xmlns", Key: strings.TrimPrefix(n, "xmlns:"), Value: v}}, e.Attr...)
+				} else {
+					e.CreateAttr(n, v)
+				}
+			}
+			c.note("add-attr:" + n)
+			break
+		}
 		if strings.Contains(n, "SignatureValidated") {
 			// names of the library's result fields: a decoder that maps them from the message would let the
 			// message vouch for itself
